@@ -406,16 +406,18 @@ def judge(ctx, case, res, pre):
             cnt["eos_judged"] = cnt.get("eos_judged", 0) + 1
             chk("PR_EOS", rel(e["p_of_vm"], p), TOL_EOS, f"P={p} but Peng-Robinson at V_m={vm}, T={tk}, x={x} gives {e['p_of_vm']}")
         chk("sum_partial", rel(sum(pp), p), TOL_EOS, f"partial pressures sum to {sum(pp)}, total {p}")
-        if gtype != "fixedP" and res.get("nfv") and not (e["p_of_vm"] > 0):
-            # known departure (reported through ctx.finding): with numerical_fixed_volume the engine's calc_PR() doubles V_m
-            # while the PR pressure is <= 0; the converged state then has sum(10^SI/phi) = 2^k * P. Nothing else is judged here.
-            cnt["negative_eos_pressure_numerical_fixed_volume"] = cnt.get("negative_eos_pressure_numerical_fixed_volume", 0) + 1
-            worst = max((abs(phi[i] * pp[i] - 10 ** si[i]) / (phi[i] * p) for i in range(len(gases)) if n[i] > 0 and si[i] > -90), default=0.0)
-            if worst > TOL_EOS:
-                checks.append(("FINDING", worst, TOL_EOS,
-                               f"numerical fixed-volume path, PR pressure at the reported V_m={vm} is {e['p_of_vm']} <= 0: "
-                               f"fugacity phi*p differs from 10^SI by the relative amount {worst:.3g} (P={p}, T={tk})"))
-            continue
+        if gtype != "fixedP" and not (e["p_of_vm"] > 0):
+            # known departure (reported through ctx.finding): on the numerical fixed-volume path the engine's calc_PR() (gases.cpp)
+            # doubles V_m while the PR pressure is <= 0 and keeps the doubled value for the mole numbers; the converged state then
+            # has 10^SI = 2^k * phi * p for every component. Exactly this signature is set aside; nothing else is judged on the row.
+            ratios = [10 ** si[i] / (phi[i] * pp[i]) for i in range(len(gases)) if n[i] > 0 and si[i] > -90 and phi[i] * pp[i] > 0]
+            ks = [round(math.log2(r)) if r > 0 else 0 for r in ratios]
+            if ratios and ks[0] >= 1 and all(k == ks[0] and abs(r / 2 ** k - 1) <= TOL_EOS for r, k in zip(ratios, ks)):
+                cnt["negative_PR_pressure_vm_doubled"] = cnt.get("negative_PR_pressure_vm_doubled", 0) + 1
+                checks.append(("FINDING", float(2 ** ks[0]), TOL_EOS,
+                               f"fixed-volume Peng-Robinson phase, PR pressure at the reported V_m={vm} is {e['p_of_vm']} <= 0: "
+                               f"10^SI = {2 ** ks[0]} * phi * p for every component (P={p}, T={tk}, gases={gases})"))
+                continue
         # phi: the reported P and V_m agree with the EOS only within 1e-4, so the EOS value of phi is taken at each of the
         # consistent readings of the reported state: (P, V_m), (P_eos(V_m), V_m), (P, V_m(P))
         alts = [e]
